@@ -32,6 +32,7 @@ import (
 	"testing"
 	"time"
 
+	"github.com/blinklabs-io/gouroboros/connection"
 	"github.com/blinklabs-io/gouroboros/ledger"
 	"github.com/blinklabs-io/gouroboros/muxer"
 	"github.com/blinklabs-io/gouroboros/protocol"
@@ -184,7 +185,8 @@ func scenario(p params) e1lib.Scenario {
 			panic(err)
 		}
 		client := blockfetch.NewClient(protocol.ProtocolOptions{
-			Muxer: m, ErrorChan: errs, Mode: protocol.ProtocolModeNodeToNode, Role: protocol.ProtocolRoleClient,
+			ConnectionId: connection.ConnectionId{LocalAddr: a.LocalAddr(), RemoteAddr: a.RemoteAddr()},
+			Muxer:        m, ErrorChan: errs, Mode: protocol.ProtocolModeNodeToNode, Role: protocol.ProtocolRoleClient,
 		}, &cfg)
 		client.Start()
 		m.SetDiffusionMode(muxer.DiffusionModeInitiator)
